@@ -4,7 +4,7 @@
 (* prescribed result equals (or, where the property leaves a choice,        *)
 (* contains) the recorded one.  Each property is checked by its own named   *)
 (* Check; all disagreements of a trace are reported in one pass.            *)
-EXTENDS RouterOps, Json
+EXTENDS RouterOps, Cors, Json
 
 CONSTANTS File, Props
 Trace == ndJsonDeserialize(File)
@@ -25,8 +25,9 @@ SetSeq(S) == IF S = {} THEN <<>> ELSE LET RECURSIVE f(_) f(T) == IF T = {} THEN 
 BagOf(seq) == [x \in ToSet(seq) |-> Cardinality({i \in DOMAIN seq : seq[i] = x})]
 
 NormDomain(d) == IF Len(d) > 0 /\ Ch(d, Len(d)) = "/" THEN Take(d, Len(d) - 1) ELSE d
-CfgOf(c) == [name |-> c.name, trace |-> c.trace, icpt |-> c.icpt, domain |-> NormDomain(c.domain)]
-Blank == NewRouter([name |-> "", trace |-> FALSE, icpt |-> <<>>, domain |-> ""])
+CfgOf(c) == [name |-> c.name, trace |-> c.trace, icpt |-> c.icpt, domain |-> NormDomain(c.domain), cors |-> c.cors]
+NoCors == [on |-> FALSE, origins |-> <<>>, allow |-> <<>>, expose |-> <<>>, maxage |-> 0, cred |-> FALSE]
+Blank == NewRouter([name |-> "", trace |-> FALSE, icpt |-> <<>>, domain |-> "", cors |-> NoCors])
 
 FullPat == FacadePat(Ev.chain, Ev.isres, Ev.pat)
 FullMws == FacadeMws(Ev.chain, Ev.mws)
@@ -44,7 +45,9 @@ Init == rt = Blank /\ prevRt = Blank /\ lastEv = "reset" /\ l = 1
 TrReset ==
   /\ Ev.ev = "reset"
   /\ rt' = NewRouter(CfgOf(Ev.cfg)) /\ prevRt' = NewRouter(CfgOf(Ev.cfg)) /\ lastEv' = "reset"
-  /\ Check("C05", Ev.res = "ok", <<"NewRouter", Ev.res>>)
+  /\ Check("C05", Ev.res \in {"ok", "err"}, <<"NewRouter", Ev.res>>)
+  /\ Check("C11", (Ev.cfg.cors.on /\ AnyOrigin(Ev.cfg.cors) /\ Ev.cfg.cors.cred) => Ev.res = "err", <<"origin * with credentials accepted">>)
+  /\ Check("C12", (Ev.res = "err") = ConfigBad(Ev.cfg.cors), <<"configuration verdict", Ev.cfg.cors, Ev.res>>)
 
 \* ------------------------------------------------------------------ Handle
 ExpWrapsHandle(pat, mws, methods) ==
@@ -235,10 +238,24 @@ TrTraceHelper ==
   /\ Check("C18", (Ev.res = "ok" /\ Ev.dumpok) => (Ev.status = 200 /\ Ev.ct = "message/http" /\ Ev.out = HtmlEscape(Ev.dump)),
            <<"trace helper", Ev.status, Ev.ct, Ev.out, Ev.dump>>)
 
+\* C11 / C12: one request with CORS request headers; response headers as sent
+HdrOf(h, k) == IF k \in DOMAIN h THEN h[k] ELSE ""
+TrReq ==
+  /\ Ev.ev = "req" /\ UNCHANGED <<rt, prevRt, lastEv>>
+  /\ LET q  == [method |-> Ev.method, path |-> Ev.path, origin |-> HdrOf(Ev.hdr, "Origin"),
+                acrm |-> HdrOf(Ev.hdr, "Access-Control-Request-Method"), acrh |-> HdrOf(Ev.hdr, "Access-Control-Request-Headers")]
+         O  == ServeOutcomes(rt, Ev.method, Ev.path)
+         sv == \E o \in O : o.kind \in {"route", "opt", "rootopt", "trace"}
+         al == IF R.pat \in Live(rt) THEN AllowSet(rt, R.pat) ELSE {}
+         c  == rt.cfg.cors
+     IN /\ Check("C05", R.panic = "none", <<"panic", Ev.method, Ev.path>>)
+        /\ Check("C11", C11_NoMore(c, q, sv /\ R.kind \notin {"404", "405"}, al, Ev.resp), <<"grants more than configured", c, q, R.kind, Ev.resp>>)
+        /\ Check("C12", C12_Exact(c, q, sv, al, Ev.resp), <<"not exactly as configured", c, q, R.kind, Ev.resp>>)
+
 TraceNext ==
   /\ l <= Len(Trace)
   /\ l' = l + 1
-  /\ (TrReset \/ TrHandle \/ TrRemove \/ TrClean \/ TrUse \/ TrRoutes \/ TrServe \/ TrURL \/ TrSyntax \/ TrTraceHelper)
+  /\ (TrReset \/ TrHandle \/ TrRemove \/ TrClean \/ TrUse \/ TrRoutes \/ TrServe \/ TrURL \/ TrSyntax \/ TrTraceHelper \/ TrReq)
   /\ (l' > Len(Trace) => PrintT("TRACE-END " \o ToString(Len(Trace))))
 
 Spec == Init /\ [][TraceNext]_vars
